@@ -293,9 +293,28 @@ package jobs
 
 //@ assumed (*JavascriptTransform).Clone
 //@   pure
-//@ assumed (*JavascriptTransform).transformEntities
+// the JavaScript transform: the script is handed exactly the entities of the chunk, and what it returns is handed on
+// unchanged - an entity list as it is, a generic list member by member in order (anything else is an error). What the
+// script does with the entities is goja's business (not modelled: the call may change entities, their maps and lists).
+//@ unit (*JavascriptTransform).transformEntities
+//@   prop C10
+//@   ghost scriptResG iface
+//@   requires javascriptTransform != nil && runner != nil
+//@   dyncall transformFunc preserves Cell.*
 //@   modifies $transformCalls
+//@   frame-assumed preserves IncrementalPipeline.*, FullSyncPipeline.*, PipelineSpec.*, job.*, Runner.*, Cell.*, wrappedSink.*, SyncJobState.*, jobResult.*, Scheduler.*
 //@   ensures $transformCalls == old($transformCalls) + 1
+//@   ensures [C10:an-entity-list-returned-by-the-script-is-handed-on-as-it-is] ret1 == nil && typeof(scriptResG) == typeid("[]*server.Entity") ==> ret0 == cast(scriptResG, "[]*server.Entity")
+//@   ensures [C10:a-generic-list-returned-by-the-script-is-handed-on-member-by-member-in-order] ret1 == nil && typeof(scriptResG) == typeid("[]interface{}") ==> len(ret0) == len(cast(scriptResG, "[]interface{}")) && (forall k int :: 0 <= k && k < len(ret0) ==> ret0[k] == cast(cast(scriptResG, "[]interface{}")[k], "*server.Entity"))
+//@   at call transformFunc#1 before
+//@     assert [C10:the-script-is-handed-exactly-the-entities-of-the-chunk] $arg0 == entities
+//@   at call transformFunc#1
+//@     ghost scriptResG := $result0
+//@   at return
+//@     ghost $transformCalls := old($transformCalls) + 1
+//@   loop 1
+//@     invariant -1 <= $i && $i < len(v) && len(resultEntities) == $i + 1 && v == cast(scriptResG, "[]interface{}") && typeof(scriptResG) == typeid("[]interface{}")
+//@     invariant forall k int :: 0 <= k && k <= $i ==> resultEntities[k] == cast(v[k], "*server.Entity")
 
 // ---------------------------------------------------------------------------
 // C09: job-driven full syncs. Completing a sync tombstones every entity the sync did not see, so only the sync the
@@ -479,3 +498,33 @@ package jobs
 //@   loop 1
 //@     invariant firstG ==> isnil(conts)
 //@     invariant !firstG ==> conts == prevContG && len(conts) > 0
+
+// ---------------------------------------------------------------------------
+// C09: the HTTP dataset sink drives a remote full sync through request headers: every run announces a sync of its own
+// (new id, start header on its first batch), every batch of the sync carries that id, and the end request names it
+//@ assumed (http.Header).Add
+//@   pure
+//@ unit (*httpDatasetSink).startFullSync
+//@   prop C09
+//@   ghost newIdG string = ""
+//@   requires httpDatasetSink != nil
+//@   ensures [C09:every-run-announces-a-sync-of-its-own-so-its-first-batch-carries-the-start-header] result == nil ==> httpDatasetSink.isFirstBatch && httpDatasetSink.inFullSync
+//@   ensures [C09:every-run-gets-a-newly-generated-sync-id] result == nil ==> httpDatasetSink.fullSyncID == "fsid-" + newIdG
+//@   modifies httpDatasetSink.isFirstBatch, httpDatasetSink.fullSyncID, httpDatasetSink.inFullSync
+//@   at call String#1
+//@     ghost newIdG := $result
+//@ unit (*httpDatasetSink).processEntities
+//@   prop C09
+//@   requires httpDatasetSink != nil && runner != nil
+//@   at call Add#1 before
+//@     assert [C09:a-batch-sent-during-a-sync-carries-the-id-of-that-sync] httpDatasetSink.inFullSync && $arg1 == "universal-data-api-full-sync-id" && $arg2 == httpDatasetSink.fullSyncID
+//@   at call Add#2 before
+//@     assert [C09:the-first-batch-of-a-sync-and-only-that-one-carries-the-start-header] httpDatasetSink.inFullSync && httpDatasetSink.isFirstBatch && $arg1 == "universal-data-api-full-sync-start" && $arg2 == "true"
+//@ unit (*httpDatasetSink).endFullSync
+//@   prop C09
+//@   requires httpDatasetSink != nil && runner != nil
+//@   at call Add#1 before
+//@     assert [C09:the-end-request-is-marked-as-the-end-of-a-sync] $arg1 == "universal-data-api-full-sync-end" && $arg2 == "true"
+//@   at call Add#2 before
+//@     assert [C09:the-end-request-names-the-sync-this-sink-started] $arg1 == "universal-data-api-full-sync-id" && $arg2 == httpDatasetSink.fullSyncID
+
